@@ -119,7 +119,7 @@ func c12alphabet(keys, vals []string) []string {
 }
 
 func genC12(c *Cfg, emit func([]string)) {
-	alpha := c12alphabet([]string{"ka", "kb"}, []string{"", "a", "b"})
+	alpha := c12alphabet([]string{"ka", "kb"}, []string{"", "a", "L"})
 	maxLen, nRandom := 3, 60000
 	if c.Thorough() {
 		maxLen, nRandom = 5, 1000000
@@ -139,8 +139,32 @@ func genC12(c *Cfg, emit func([]string)) {
 	for _, ini := range inits {
 		rec(ini, nil, 0)
 	}
+	// one key, deeper: transaction-level ops only, values include the ledger's own value (writing the
+	// original value back after somebody else changed it is a write like any other)
+	alpha1 := []string{"tget ka", "tdel ka", "tput ka -", "tput ka a", "tput ka L", "bget ka", "tcommit", "tdiscard"}
+	depth1 := 6
+	if c.Thorough() {
+		depth1 = 7
+	}
+	var rec1 func(ini string, prefix []string)
+	rec1 = func(ini string, prefix []string) {
+		if len(prefix) == depth1 {
+			h := append([]string{"reset " + ini, "tx"}, prefix...)
+			emit(append(h, "tget ka", "bcommit"))
+			return
+		}
+		for _, o := range alpha1 {
+			rec1(ini, append(prefix[:len(prefix):len(prefix)], o))
+		}
+	}
+	for _, ini := range []string{"-", "ka=L"} {
+		rec1(ini, nil)
+	}
 	keys5 := []string{"ka", "kb", "kc", "kd", "ke"}
 	alpha5 := c12alphabet(keys5, []string{"", "a", "b", "cc"})
+	for _, k := range keys5 {
+		alpha5 = append(alpha5, "tput "+k+" L"+k, "bput "+k+" L"+k, "tput "+k+" L"+k) // the ledger's initial value
+	}
 	for i := 0; i < nRandom; i++ {
 		n := 4 + c.Rng.Intn(14)
 		var kvs []string
@@ -165,6 +189,6 @@ func genC12(c *Cfg, emit func([]string)) {
 		}
 		emit(append(h, "bcommit"))
 	}
-	c.Rule = fmt.Sprintf("all op sequences of length <= %d over {tget,tdel,bget,bdel,tput,bput}x{ka,kb}x{'',a,b} + tcommit/tdiscard from 3 initial ledgers (this part exhaustive), plus %d random sequences (4..17 ops, 5 keys, 1/3 of ops revisit the previous key); each history ends with the batch commit and a ledger dump; non-trivial = contains a write; distinct = distinct sha256 of op+output text", maxLen, nRandom)
+	c.Rule = fmt.Sprintf("all op sequences of length <= %d over {tget,tdel,bget,bdel,tput,bput}x{ka,kb}x{'',a,L} + tcommit/tdiscard from 3 initial ledgers (this part exhaustive), all sequences of exactly %d transaction-level ops on one key over {read, delete, put '', put a, put the ledger's own value, batch-level read, commit, discard} from 2 initial ledgers (exhaustive), plus %d random sequences (4..17 ops, 5 keys, 1/3 of ops revisit the previous key); each history ends with the batch commit and a ledger dump; non-trivial = contains a write; distinct = distinct sha256 of op+output text", maxLen, depth1, nRandom)
 	c.Extra = map[string]any{"exhaustive_part_max_len": maxLen, "random_sequences": nRandom}
 }
